@@ -1,6 +1,7 @@
 //@ tu: libxcm/tp/common/xcm_tp.c
 //@ enforce: xcm_tp_socket_connect
 //@ replace: xv_init_stub xv_connect_stub xv_server_stub xv_close_stub xv_cleanup_stub xv_accept_stub xv_send_stub xv_receive_stub xv_update_stub xv_finish_stub xv_enable_ctl_stub xv_priv_size_stub ctl_process ctl_create ctl_destroy get_next_sock_id
+//@ flags: --object-bits 10
 //@ props: C04 C14 C08
 //@ expect: postcondition>=7 canary=8
 #include "_unit.h"
